@@ -26,7 +26,7 @@ import (
 func init() {
 	Registry["C10"] = RunC10
 	Metas["C10"] = Meta{
-		Rule: "episode = real http1.HostClient (MaxConns 1..4, wait-for-connection off/short/long, MaxIdleConnDuration, MaxConnDuration, read/request/dial timeouts, response streaming, retry config) driven by 2..6 caller tasks x 1..5 calls (GET/POST/PUT, byte or stream bodies, Do/DoTimeout/DoDeadline, contexts cancelled before/during) against a scripted server; per-exchange fault drawn from {ok keep-alive, ok+Connection: close, FIN before first byte, FIN mid-header, FIN mid-body, RST mid-response, stall past the read timeout, trickle around the deadline} plus idle FIN/RST on pooled connections, dial error/stall/timeout, server restart, a bystander calling CloseIdleConnections while connections sit in the pool; responses with Content-Length: 0 among the others; every pool lock boundary (verifhook.Yield), every connection read/write/dial is a scheduler decision; fake clock. Non-trivial: >= 2 callers overlapped inside the pool (two tasks parked at pool yield sites at the same step) or a fault fired inside an exchange; distinct = abstract signature (sequence of yield sites by task role + fault kinds + pool-state tuples).",
+		Rule: "episode = real http1.HostClient (MaxConns 1..4, wait-for-connection off/short/long, MaxIdleConnDuration, MaxConnDuration, read/request/dial timeouts, response streaming, retry config) driven by 2..6 caller tasks x 1..5 calls (GET/POST/PUT, byte or stream bodies, Do/DoTimeout/DoDeadline, contexts cancelled before/during) against a scripted server; per-exchange fault drawn from {ok keep-alive, ok+Connection: close, FIN before first byte, FIN mid-header, FIN mid-body, RST mid-response, stall past the read timeout, trickle around the deadline} plus idle FIN/RST on pooled connections, dial error/stall/timeout, server restart, a bystander calling CloseIdleConnections while connections sit in the pool; responses with Content-Length: 0 among the others; every pool lock boundary (verifhook.Yield), every connection read/write/dial is a scheduler decision; fake clock. Non-trivial: >= 2 callers overlapped inside the pool (two tasks parked at pool yield sites at the same step) or a fault fired inside an exchange; distinct = abstract signature (sequence of yield sites by task role + fault kinds + pool-state tuples). Added later: Content-Length: 0 responses, a bystander calling CloseIdleConnections, use-after-announced-close judged at the client end, unexplained errors in fault-free episodes; and a second scenario on client.Client (host map, per-host HostClients created on first use, 10 s cleaner) with scheduler stalls (runnable tasks held back while timers fire) and the per-host-address connection bound.",
 		Real: []string{"http1.HostClient: Do/doNonNilReqResp/acquireConn/queueForIdle/releaseConn/closeConn/decConnsCount/dialConnFor/wantConn/connsCleaner/CloseIdleConnections", "req.Write, resp.ReadHeaders/ReadRespBody/ReadRespBodyStream, clientRespStream", "standard.Conn", "timer pool, context deadlines (fake clock)"},
 		Stub: []string{"TCP + dial (SimConn, SimDialer)", "server (scripted actor)", "clock (synctest)"},
 		Assumptions: []string{
